@@ -126,11 +126,36 @@ def run_case(case):
     mods = [m['name'] for m in spec['modules']]
     opts = gen_opts(rng, spec, tids, mods)
     model = oracles.LayerModel(spec, plan)
+    # the classic parametrised test case: several instances of one class
+    # for every method (equal to one another, same id(), told apart by
+    # str() only) - each of them is a test of its own and runs once.
+    # (only without -t patterns: the model filters by id-derived names)
+    mult = {}
+    if 'test' not in opts and rng.random() < 0.3:
+        cands = []
+
+        def walk(m, node, flat):
+            if node['t'] == 'class':
+                if not flat:
+                    cands.append((m, node))
+            else:
+                for ch in node.get('ch', []):
+                    walk(m, ch, bool(node.get('flat')))
+        for m in spec['modules']:
+            walk(m, m['suite'], False)
+        if cands:
+            m, node = rng.choice(cands)
+            node['params'] = rng.choice([['utf-8', 'latin-1'],
+                                         ['a', 'b', 'c']])
+            for ts in node['tests']:
+                mult['%s.%s.%s' % (m['name'], node['name'], ts['name'])] = \
+                    len(node['params'])
     want = vworld.expected_tests(spec, opts)
     rep = opts.get('repeat') or 1
     nofact = {t for t, (ts, l) in tests.items() if ts['kind'] == 'skip_deco'}
     want_ids = {t for ts in want.values() for t in ts}
-    want_exec = {t: rep for t in want_ids if t not in nofact}
+    want_exec = {t: rep * mult.get(t, 1) for t in want_ids
+                 if t not in nofact}
     viol = []
     counters = {}
     root = vworld.materialise(spec)
@@ -208,13 +233,17 @@ def run_case(case):
                 V('layer-listed-twice', 'list-dup-layer',
                   layers=[l for l, _ in listing])
             if {k: sorted(v) for k, v in got.items()} != \
-                    {k: sorted(v) for k, v in want.items()}:
+                    {k: sorted(t for t in v for _ in range(mult.get(t, 1)))
+                     for k, v in want.items()}:
                 V('listing-differs-from-model', 'list-set',
                   got={k: sorted(v)[:6] for k, v in got.items()},
                   want={k: sorted(v)[:6] for k, v in want.items()})
             elif seq_order is not None:
                 for lname, tl in got.items():
-                    lo = [t for t in tl if t not in nofact]
+                    lo = []
+                    for t in tl:
+                        if t not in nofact and t not in lo:
+                            lo.append(t)
                     so = seq_order.get(model.short(lname), [])
                     C('order_compared_layers')
                     if lo != so:
@@ -260,6 +289,8 @@ def run_case(case):
         vworld.destroy(root)
     if rep > 1:
         C('repeat_cases')
+    if mult:
+        C('parametrised_instance_cases')
     if opts.get('package'):
         C('package_cases')
         if len(set(opts['package'])) > 1:
